@@ -102,7 +102,7 @@ const EMOJI: &[&str] = &[
     "\u{2600}",
     "\u{a9}",
 ];
-const SCRIPTS: &[&str] = &["ß", "Σ", "σ", "ς", "İ", "中", "한", "Ω", "ж", "é", "É", "ñ", "ÿ", "ŉ"];
+const SCRIPTS: &[&str] = &["ß", "Σ", "σ", "ς", "İ", "中", "한", "Ω", "ж", "é", "É", "ñ", "ÿ", "ŉ", "ı", "ſ", "ﬁ", "ΐ", "ǆ"];
 const WORDS: &[&str] = &["the", "Quick", "brown fox", " lorem", "IPSUM", "a b c", "x,y,,z"];
 const LONE: &[&str] = &["\u{301}", "\u{200d}", "\u{fe0f}", "\u{200b}", "\u{ad}", "\u{308}", "\u{1F3FD}", "\u{1F1FA}"];
 const CONTROLS: &[&str] = &["\0", "\u{1}", "\u{7f}", "\u{1b}", "\u{9f}"];
